@@ -9,17 +9,19 @@
 
 static float h_nd_f (void) { return nd_float (); }
 static double h_nd_d (void) { return nd_double (); }
-static long double h_nd_ld (void) { /* arbitrary 80-bit pattern */
-  long double v; uint64_t m = nd (); uint16_t se = (uint16_t) nd ();
-  memset (&v, 0, sizeof (v)); memcpy (&v, &m, 8); memcpy ((char *) &v + 8, &se, 2);
-#ifdef H_LD_NORMAL_ONLY
-  H_ASSUME ((m >> 63) == 1 || ((se & 0x7fff) == 0 && (m >> 63) == 0)); /* no unnormals / pseudo-denormals */
+static long double h_nd_ld (void) {
+  long double v; uint64_t m = nd (), se = nd ();
+  memset (&v, 0, sizeof (v));
+#if H_CBMC /* CBMC models long double as a 128-bit IEEE format: every bit pattern of the 16 bytes */
+  memcpy (&v, &m, 8); memcpy ((char *) &v + 8, &se, 8);
+#else      /* native: the x87 80-bit format, ten significant bytes */
+  { uint16_t e = (uint16_t) se; memcpy (&v, &m, 8); memcpy ((char *) &v + 8, &e, 2); }
 #endif
   return v;
 }
 static int h_same_f (float a, float b) { uint32_t x, y; memcpy (&x, &a, 4); memcpy (&y, &b, 4); return x == y || (a != a && b != b); }
 static int h_same_d (double a, double b) { uint64_t x, y; memcpy (&x, &a, 8); memcpy (&y, &b, 8); return x == y || (a != a && b != b); }
-static int h_same_ld (long double a, long double b) { return memcmp (&a, &b, 10) == 0 || (a != a && b != b); }
+static int h_same_ld (long double a, long double b) { return a == b ? (1 / a == 1 / b || a != 0) : (a != a && b != b); } /* value equality incl. the sign of zero */
 
 #define H_ARGS(n) MIR_val_t args[n + 1], res[2]; memset (args, 0, sizeof (args)); memset (res, 0, sizeof (res))
 static uint64_t h_run_i1 (int f, uint64_t a) { H_ARGS (1); args[0].u = a; h_run (f, args, res); return res[0].u; }
